@@ -484,8 +484,50 @@ def run(rep: Report, ctx: Any) -> str:
     inplace.check(rep, ctx, "R20.9")
     rep.rule("R20.5", "a failing reference affects nothing else: the dependency registry does not alias the caller's roots set")
     check_no_alias(rep, ctx, "R20.5")
+
+    # ---- R20.12 ------------------------------------------------------------------------------------------------------------
+    # A component used through a reference is ONE object of the parsed document, handed to the builders again at every point of use;
+    # its inline twin is a fresh object at every point of use, built once.  The two can only agree if no visit leaves a trace in the
+    # document: whatever a builder stores into a document object (or into a container one holds, through any alias) is seen by the next
+    # use of the component and by no inline twin.  This is C12's R12.5 (the document is read-only outside the schema package), decided
+    # there for every function that reads the document; it is claimed here under C20's id, with C12's construct keys.
+    from .c12 import _document_read_only
+
+    rep.rule("R20.12", "a shared component is parsed at every use, its inline twin once: the parsed document is read-only outside the "
+                       "schema package (no store into an attribute of a document object, no store into / mutating call on / hand-over to a "
+                       "writing function of a container that may be held by one, through locals, `or` / conditional arms, views, helpers' "
+                       "results - unless the function created the object itself); decided by C12's R12.5, same construct keys")
+    _document_read_only(_UnderRule(rep, "R12.5", "R20.12"), ctx)
     rep.not_decided += ["equality of generated code for inline versus referenced components"]
     return LEVEL
+
+
+class _UnderRule:
+    """A report that files what a rule shared with another property decides under this property's rule id (same construct keys)."""
+
+    def __init__(self, rep: Report, theirs: str, ours: str):
+        self._rep, self._theirs, self._ours = rep, theirs, ours
+
+    def _id(self, rid: str) -> str:
+        return rid.replace(self._theirs, self._ours)
+
+    def __getattr__(self, name: str) -> Any:
+        return getattr(self._rep, name)
+
+    def rule(self, rid: str, text: str) -> None:
+        self._rep.rule(self._id(rid), text)
+
+    def ok(self, rule: str, *a: Any, **k: Any) -> None:
+        self._rep.ok(self._id(rule), *a, **k)
+
+    def fail(self, rule: str, *a: Any, **k: Any) -> None:
+        self._rep.fail(self._id(rule), *a, **k)
+
+    def check(self, cond: bool, rule: str, *a: Any, **k: Any) -> bool:
+        return self._rep.check(cond, self._id(rule), *a, **k)
+
+    def control(self, name: str, fired: bool) -> None:
+        self._rep.control(self._id(name), fired)
 
 
 # ---- statements, names ----------------------------------------------------------------------------------------------------
